@@ -31,6 +31,6 @@ Definition run_gen (cfg : config) (caps caps_tls : list ext) (script : list deci
            (render : msg -> list bytes * option err) : outcome :=
   run_case gen_expects gen_fixes cfg caps caps_tls script ms render.
 
-Definition run_reset_gen (cfg : config) (caps caps_tls : list ext) (script : list decision) (ms1 ms2 : list msg)
-           (render : msg -> list bytes * option err) : outcome2 :=
-  run_reset gen_expects gen_fixes cfg caps caps_tls script ms1 ms2 render.
+Definition run_reset_gen (do_reset : bool) (cfg : config) (caps caps_tls : list ext) (script : list decision)
+           (ms1 ms2 : list msg) (render : msg -> list bytes * option err) : outcome2 :=
+  run_two_sends do_reset gen_expects gen_fixes cfg caps caps_tls script ms1 ms2 render.
